@@ -130,7 +130,8 @@ TrQuiesce ==
   \* data files, and what a reopened store remembers of deleted keys is not the protocol's business
   /\ W' = IF Ev.final THEN W
           ELSE [m \in modes |-> {[s |-> [w.s EXCEPT !.cf.disk = TRUE, !.backlog = FALSE,
-                                                   !.ref = [k \in KeyNames |-> IF w.s.ref[k].st = "tomb" THEN WildRef ELSE w.s.ref[k]]],
+                                                   !.ref = [k \in KeyNames |-> IF w.s.ref[k].st = "tomb" THEN WildRef
+                                                                               ELSE [w.s.ref[k] EXCEPT !.disk = TRUE]]],
                                   lk |-> ZeroLk, dead |-> w.dead] : w \in W[m]}]
   /\ UNCHANGED <<lead, modes, present>>
 
